@@ -299,6 +299,7 @@ func specInScope(stack []scope, n int, s scope) bool {
 //@ postcondition (*Parser) [C07] callers-contexts-untouched: mapsKept("Mp_String_S_parser_Variable") && mapsKept("Mp_String_S_parser_FunctionDefinition") && mapsKept("Mp_String_String")
 //
 //@ func (*Parser).evaluateImports
+//@   callsite parse requires[C13] never-a-file-that-is-still-being-parsed: arg1 != p.path && !inList(p.importers, arg1) && arg2
 //@   flag nocommon: true
 //@   flag notypeinv: true
 //@   requires[C13] context-has-its-maps: ctx.variables != nil && ctx.functions != nil && ctx.imports != nil
